@@ -249,6 +249,8 @@ impl GlobalCollector {
                 .spawn(move || {
                     loop {
                         let begin_instant = Instant::now();
+                        #[cfg(fastrace_verif)]
+                        crate::verif::point(crate::verif::Point::BackgroundCycle);
                         GLOBAL_COLLECTOR.lock().as_mut().unwrap().handle_commands();
                         std::thread::sleep(
                             config
